@@ -116,7 +116,12 @@ func c13Gen(r *rand.Rand, lane string) *c13Case {
 				w("    " + s)
 			}
 		}
-		idLine := "test_id:" + sp + idVal()
+		idv := idVal()
+		if core.Chance(r, 1, 6) {
+			// the right number in a spelling that is not the canonical one
+			idv = core.Pick(r, fmt.Sprintf("%02d", i+1), fmt.Sprintf("+%d", i+1), fmt.Sprintf("%03d", i+1), fmt.Sprintf("%d ", i+1), fmt.Sprintf("\"%d\"", i+1), fmt.Sprintf("%d.0", i+1))
+		}
+		idLine := "test_id:" + sp + idv
 		titleLine := "test_title:" + sp + core.Pick(r, rule+"-"+fmt.Sprint(r.Intn(30)), `"`+rule+`-3"`, "whatever", "920100-1", "test", "title", "t", "-")
 		if mode == "both-rev" {
 			if hasTitle {
